@@ -116,7 +116,8 @@ theorem okNested_ext {all : List String} {te te' : C.TyEnv} (hext : Ext all te t
     exact ⟨hw, by rw [hty]; exact hext.1 _ _ h.2⟩
   | aug x op e =>
     simp only [Stmt.okNested, Bool.and_eq_true, beq_iff_eq] at h ⊢
-    exact ⟨(wt_sub hext.1 e h.1).1, hext.1 _ _ h.2⟩
+    obtain ⟨hw, hty⟩ := wt_sub hext.1 _ h.1
+    exact ⟨hw, by rw [hty]; exact hext.1 _ _ h.2⟩
   | tuple k xs es =>
     simp only [Stmt.okNested, Bool.and_eq_true] at h ⊢
     obtain ⟨⟨⟨⟨hl, hwt⟩, htg⟩, hall⟩, hte⟩ := h
@@ -126,15 +127,15 @@ theorem okNested_ext {all : List String} {te te' : C.TyEnv} (hext : Ext all te t
   | ctuple k ts xs es => simp only [Stmt.okNested] at h; cases h
   | ifs c a b iha ihb =>
     simp only [Stmt.okNested, Bool.and_eq_true] at h ⊢
-    exact ⟨⟨(wt_sub hext.1 c h.1.1).1, iha hext h.1.2⟩, ihb hext h.2⟩
+    exact ⟨⟨okCond_sub hext.1 h.1.1, iha hext h.1.2⟩, ihb hext h.2⟩
   | whileLoop c b ihb =>
     simp only [Stmt.okNested, Bool.and_eq_true] at h ⊢
-    exact ⟨(wt_sub hext.1 c h.1).1, ihb hext h.2⟩
+    exact ⟨okCond_sub hext.1 h.1, ihb hext h.2⟩
   | forRange i n b ihb =>
     simp only [Stmt.okNested, Bool.and_eq_true, Bool.not_eq_true', List.contains_eq_mem,
       decide_eq_false_iff_not, Option.isNone_iff_eq_none] at h ⊢
     obtain ⟨⟨⟨⟨hnwt, hiall⟩, hi⟩, hnv⟩, hbok⟩ := h
-    refine ⟨⟨⟨⟨(wt_sub hext.1 n hnwt).1, hiall⟩, ?_⟩, hnv⟩, ihb (Ext_cons i .int hext) hbok⟩
+    refine ⟨⟨⟨⟨okCond_sub hext.1 hnwt, hiall⟩, ?_⟩, hnv⟩, ihb (Ext_cons i .int hext) hbok⟩
     cases hl : te'.lookup i with
     | none => rfl
     | some t =>
@@ -147,7 +148,7 @@ theorem okNested_ext {all : List String} {te te' : C.TyEnv} (hext : Ext all te t
     exact ⟨hw, by rw [hty]; exact h.2⟩
   | sleep e =>
     simp only [Stmt.okNested] at h ⊢
-    exact (wt_sub hext.1 e h).1
+    exact okCond_sub hext.1 h
   | brk => rfl
 
 theorem trNested_ext {all : List String} {te te' : C.TyEnv} {m : Bool} {d : Nat} {s s' : Stmt} (hs : Sub te te')
